@@ -144,6 +144,9 @@ pub fn c20_part(thorough: bool) -> (mc::Stats, Vec<mc::Violation>) {
     let mut total = mc::Stats { states: 0, transitions: 0, executions: 0, steps: 0, max_depth: 0, distinct_terminals: 0, counters: BTreeMap::new(), exhaustive: true, cap: None, per_budget: vec![] };
     let mut found = vec![];
     for (name, cfg) in &worlds {
+        let mut cfg = cfg.clone();
+        cfg.focus = vec!["C20".to_string()];
+        let cfg = &cfg;
         let limits = Limits { max_budget: k, max_depth: 80, max_states: 2_000_000, wall_s: mc::budget(thorough, 15.0, 0.2) };
         let mut vio = vec![];
         let m = monitors.clone();
@@ -189,6 +192,7 @@ pub fn run(prop: &str) {
     for (name, cfg0) in &wl {
         let mut cfg = cfg0.clone();
         cfg.force_nonce = prop == "C19";
+        cfg.focus = vec![prop.to_string()];
         let remaining = (budget - (clock::wall() - start)).min(per * 2.0);
         if remaining < 1.0 {
             exhaustive = false;
